@@ -138,6 +138,9 @@ func (w *Wallet) NewRecipeKind(kind string, curHeight uint64, curTime time.Time)
 	if r.Reveal.Type == nil {
 		r.Reveal = r.Policy
 	}
+	if old, ok := w.Recipes[r.Addr]; ok {
+		return old // same conditions generated twice: keep one way of satisfying them
+	}
 	w.Recipes[r.Addr] = r
 	return r
 }
